@@ -40,3 +40,4 @@ pub fn arg<T: std::str::FromStr>(name: &str, default: T) -> T {
 }
 
 pub mod pool;
+pub mod arena_core;
